@@ -4,11 +4,16 @@ C06 -- the assignment solver returns a complete minimum-cost matching for any ma
 ENUM: every matrix of the stated finite families is handed to a fresh
 `Munkres().compute`, and compared with a brute-force minimum over all injections.
 BFS: one solver instance is driven through every sequence of solves over a
-9-matrix alphabet, to closure of the canonical instance state.
+19-matrix alphabet (four of them raise half-way), to closure of the canonical instance state.
+
+Dimensions enumerated besides shape and value palette: magnitude (scaled_magnitudes: one factor from the smallest
+denormal to beyond sys.maxsize), entry type (entry_types: bool, numpy.float64, int/float mixed), the profit -> cost
+conversion in front of the solver (profit_to_cost_chain: make_cost_matrix with explicit, omitted and None inversion),
+all-distinct entries, float and binary rectangles padded to 4x4 / 5x5, sizes beyond the tier's bound (structured).
 """
 import copy
 import itertools
-from ..core import Family, Result, viol
+from ..core import Family, Result, viol, watchdog, Watchdog
 from ..bfs import BFSFamily
 from ..canon import canon
 
@@ -23,9 +28,8 @@ ASSUMPTIONS = ['costs finite and non-negative (the property\'s own precondition)
                'float comparison of totals within 1e-9 (within 1e-9 * scale in the scaled-magnitude family)',
                'brute-force minimum over all injections is the trusted oracle',
                'the caller\'s matrix counts as unmodified when its repr (values AND int/float types) is unchanged',
-               'PENDING-FINDING: uniform magnitudes whose smallest uncovered reduced cost exceeds sys.maxsize by '
-               'many orders (floats >= ~1e25, Python ints >= ~1e25) are enumerated by scaled_magnitudes but skipped: '
-               'Munkres.__find_smallest starts from sys.maxsize and the solve does not terminate',
+               'uniform magnitudes far above sys.maxsize (floats 1e40, 1e300, int 10**30) are enumerated too (they exposed a '
+               'non-termination that has been repaired)',
                'solver_reuse_bfs also replays solves of matrices with DISALLOWED cells that raise UnsolvableMatrix '
                '(outside the statement, not judged) only to leave half-finished state before an in-scope solve']
 
@@ -193,6 +197,8 @@ GENERATORS = [
     ('floor(100*frac((7i+13j+1)*sqrt2))', lambda i, j, r, c: int(100 * (((7 * i + 13 * j + 1) * SQRT2) % 1.0))),
     ('1-g, g=(1,.7,1/3,.1,0)[(i+2j) mod 5]', lambda i, j, r, c: 1 - (1, 0.7, THIRD, 0.1, 0)[(i + 2 * j) % 5]),
 ]
+BEYOND_QUICK = [(r, c) for r in range(1, 11) for c in range(1, 11) if max(r, c) >= 9]
+BEYOND_THOROUGH = [(r, c) for r in range(1, 13) for c in range(1, 13) if max(r, c) >= 11]
 TRANSFORMS = ['as is', 'rows reversed', 'columns reversed', 'both reversed']
 
 
@@ -211,8 +217,9 @@ class Structured(Family):
     name = 'structured_up_to_NxN'
     timeout = 20.0
     timeout_sig = 'non-termination'
-    rule = ('%d closed-form cost functions %s x every shape r x c with 1 <= r, c <= N (N = 8 quick, 10 thorough) x %s; oracle = '
-            'exact dynamic programme over column subsets' % (len(GENERATORS), [g[0] for g in GENERATORS], TRANSFORMS))
+    rule = (('%d closed-form cost functions %s x every shape r x c with 1 <= r, c <= N (N = 8 quick, 10 thorough) x %s, plus the '
+             'untransformed matrices of %s (quick) / %s (thorough); oracle = exact dynamic programme over column subsets')
+            % (len(GENERATORS), [g[0] for g in GENERATORS], TRANSFORMS, 'every shape with 9 <= max(r, c) <= 10', 'every shape with 11 <= max(r, c) <= 12'))
 
     def setup(self, tier):
         from mitxgraders.helpers.munkres import Munkres
@@ -225,6 +232,11 @@ class Structured(Family):
                 for c in range(1, n + 1):
                     for ti in range(4):
                         yield (gi, r, c, ti)
+        # sizes just beyond the bound of the tier, untransformed only
+        beyond = BEYOND_QUICK if tier == 'quick' else BEYOND_THOROUGH
+        for gi in range(len(GENERATORS)):
+            for (r, c) in beyond:
+                yield (gi, r, c, 0)
 
     def describe(self, case):
         gi, r, c, ti = case
@@ -306,13 +318,15 @@ SCALES = [
     ('int 2**62 (2 * factor exceeds sys.maxsize)', 2 ** 62, False),
     ('int 2**63 (sys.maxsize + 1)', 2 ** 63, False),
     ('int 10**20', 10 ** 20, False),
-    # PENDING-FINDING: __find_smallest starts at sys.maxsize, so a smallest uncovered value above it is replaced by
-    # sys.maxsize; floats >= ~1e35 absorb the subtraction completely (endless loop), big ints / smaller floats need
-    # value / 2**63 rounds of step 6.  Reported; skipped until decided.
-    ('float 1e300', 1e300, True),
-    ('float 1e40', 1e40, True),
-    ('int 10**30', 10 ** 30, True),
+    # these found a genuine defect (repaired, see KNOWN_FINDINGS.json): __find_smallest started at sys.maxsize, so a smallest
+    # uncovered value above it was replaced by sys.maxsize; floats >= ~1e35 absorbed the subtraction (endless loop)
+    ('float 1e300', 1e300, False),
+    ('float 1e40', 1e40, False),
+    ('int 10**30', 10 ** 30, False),
 ]
+
+
+FULL_IN_QUICK = (1e-13, 1e19, 2 ** 63)     # factors whose 3x3 matrices over {0,1,2} are all in the quick tier
 
 
 class ScaledMagnitudes(Family):
@@ -320,9 +334,10 @@ class ScaledMagnitudes(Family):
     name = 'scaled_magnitudes'
     timeout = 5.0
     timeout_sig = 'non-termination'
-    rule = ('every r x c matrix, r, c <= 3, over {0, 1, 2} (quick: 3x3 over {0, 1} only) multiplied by each factor of %s; '
+    rule = ('every r x c matrix, r, c <= 3, over {0, 1, 2} (quick: 3x3 over {0, 1} only, except for the factors 1e-13, 1e19 and '
+            '2**63) multiplied by each factor of %s; '
             'totals compared within 1e-9 * factor; non-trivial = min != max over complete matchings; '
-            'factors marked pending (%s) are skipped (PENDING-FINDING: no termination)'
+            'no factor is skipped (pending: %s)'
             % ([x[0] for x in SCALES if not x[2]], [x[0] for x in SCALES if x[2]]))
 
     def setup(self, tier):
@@ -331,11 +346,11 @@ class ScaledMagnitudes(Family):
 
     def cases(self, tier):
         for si, (label, factor, pending) in enumerate(SCALES):
-            if pending:      # PENDING-FINDING
+            if pending:
                 continue
             for r in (1, 2, 3):
                 for c in (1, 2, 3):
-                    pal = 'bin' if (tier == 'quick' and r == 3 and c == 3) else 'int012'
+                    pal = 'bin' if (tier == 'quick' and r == 3 and c == 3 and factor not in FULL_IN_QUICK) else 'int012'
                     for idx in range(len(PALETTES[pal]) ** (r * c)):
                         yield (si, r, c, pal, idx)
 
@@ -347,9 +362,21 @@ class ScaledMagnitudes(Family):
     def describe(self, case):
         return {'factor': SCALES[case[0]][0], 'matrix': self.matrix(case)}
 
+    GIVE_UP_AFTER = 3      # non-terminating solves per factor and worker process
+    INNER_TIMEOUT = 2.0
+
     def check(self, case):
         f = SCALES[case[0]][1]
-        res = judge(self.matrix(case), self.Munkres(), tol=1e-9 * f)
+        hung = self.__dict__.setdefault('_hung', {})
+        if hung.get(case[0], 0) >= self.GIVE_UP_AFTER:
+            # a tree that loops on this factor would cost INNER_TIMEOUT per remaining case; the verdict is already VIOLATION
+            return Result('not run: %d solves with this factor did not terminate in this worker' % self.GIVE_UP_AFTER, False)
+        try:
+            with watchdog(self.INNER_TIMEOUT):       # (replaces the runner's timer for the rest of this case)
+                res = judge(self.matrix(case), self.Munkres(), tol=1e-9 * f)
+        except Watchdog:
+            hung[case[0]] = hung.get(case[0], 0) + 1
+            return Result('TIMEOUT', True, viol(self.timeout_sig, 'compute did not finish within %.0fs' % self.INNER_TIMEOUT))
         if res.violation is None:
             res = Result('%s:%s' % ('int' if isinstance(f, int) else 'float',
                                     'trivial' if not res.nontrivial else 'solved'), res.nontrivial)
@@ -473,6 +500,62 @@ def _nth_perm(n, k):
     return out
 
 
+ENTRY_KINDS = ['bool (an int subclass): False / True',
+               'numpy.float64 (a float subclass): 0, 2/3, 1',
+               'int and float mixed in one matrix: 0, 0.5, 1 (what 1 - grade_decimal gives ListGrader)']
+
+
+class EntryTypes(Family):
+    """subclasses of int / float as entries, and both kinds mixed"""
+    name = 'entry_types'
+    timeout = 5.0
+    timeout_sig = 'non-termination'
+    rule = ('every r x c matrix with r, c <= 3 whose entries are %s (3x3 only for bool); same oracle as everywhere; '
+            'the caller\'s matrix must keep the types of its entries' % ENTRY_KINDS)
+
+    def setup(self, tier):
+        import numpy
+        from mitxgraders.helpers.munkres import Munkres
+        self.Munkres = Munkres
+        self.values = [[False, True],
+                       [numpy.float64(0), numpy.float64(2.0 / 3), numpy.float64(1)],
+                       [0, 0.5, 1]]
+
+    def cases(self, tier):
+        for kind in range(len(ENTRY_KINDS)):
+            b = 2 if kind == 0 else 3
+            for r in (1, 2, 3):
+                for c in (1, 2, 3):
+                    if r == 3 and c == 3 and kind != 0:
+                        continue
+                    for idx in range(b ** (r * c)):
+                        yield (kind, r, c, idx)
+
+    def matrix(self, case):
+        kind, r, c, idx = case
+        vals = self.values[kind]
+        m = []
+        for i in range(r):
+            row = []
+            for j in range(c):
+                idx, d = divmod(idx, len(vals))
+                row.append(vals[d])
+            m.append(row)
+        return m
+
+    def describe(self, case):
+        return {'entries': ENTRY_KINDS[case[0]], 'matrix': repr(self.matrix(case))}
+
+    def check(self, case):
+        m = self.matrix(case)
+        types_before = [[type(x) for x in row] for row in m]
+        res = judge(m, self.Munkres())
+        if res.violation is None and [[type(x) for x in row] for row in m] != types_before:
+            return Result('mutated', res.nontrivial, viol('input-modified', 'entry types of the caller matrix changed',
+                                                         repr(types_before), repr(m)))
+        return res
+
+
 ALPHABET = [
     [[5]],
     [[3, 1, 2]],
@@ -527,18 +610,32 @@ class SolverReuse(BFSFamily):
             'against a fresh solver' % len(ALPHABET))
     depth_cap = 4
     workers = 4
+    timeout = 5.0
 
     def setup(self, tier):
         from mitxgraders.helpers import munkres
         self.mod = munkres
         self.Munkres = munkres.Munkres
 
+    GIVE_UP_AFTER = 3      # non-terminating solves per event and worker process
+    INNER_TIMEOUT = 2.0
+
     def solve(self, e, solver):
         m = copy.deepcopy(ALPHABET[e])
         if has_disallowed(m):
             return solve_expecting_raise(m, solver, self.mod)
         tol = 1e-9 * max(1e-13, min(1.0, max(max(row) for row in m)))
-        return judge(m, solver, tol=tol)
+        hung = self.__dict__.setdefault('_hung', {})
+        if hung.get(e, 0) >= self.GIVE_UP_AFTER:
+            # keep a broken tree from costing INNER_TIMEOUT per history: the verdict is already VIOLATION
+            return Result('TIMEOUT', True, viol('non-termination', 'not run: event %d did not terminate %d times in this worker'
+                                                % (e, self.GIVE_UP_AFTER)))
+        try:
+            with watchdog(self.INNER_TIMEOUT):       # (replaces the runner's timer for the rest of this history)
+                return judge(m, solver, tol=tol)
+        except Watchdog:
+            hung[e] = hung.get(e, 0) + 1
+            return Result('TIMEOUT', True, viol('non-termination', 'compute did not finish within %.0fs' % self.INNER_TIMEOUT))
 
     def events(self, tier):
         return list(range(len(ALPHABET)))
@@ -583,6 +680,8 @@ def families(tier):
         ScaledMagnitudes(),
         ProfitToCost(),
         DistinctValues(),
+        EntryTypes(),
+        MatrixFamily('rect24_grade3', [(2, 4), (4, 2)], 'grade3', note=' (float costs, padded to 4x4)'),
         MatrixFamily('rect_pad4_pad5_bin', [(1, 4), (4, 1), (2, 4), (4, 2), (3, 4), (4, 3), (1, 5), (5, 1), (2, 5), (5, 2)], 'bin',
                      note=' (rectangular shapes padded to 4x4 / 5x5)'),
     ]
@@ -595,6 +694,7 @@ def families(tier):
                      note=' restricted to exactly two ones per row'),
             MatrixFamily('rect24_grade4', [(2, 4), (4, 2)], 'grade4', tiers=('thorough',)),
             MatrixFamily('rect35_bin', [(3, 5), (5, 3)], 'bin', tiers=('thorough',)),
+            MatrixFamily('rect34_grade3', [(3, 4), (4, 3)], 'grade3', tiers=('thorough',)),
             MatrixFamily('sq4_int012', [(4, 4)], 'int012', tiers=('thorough',),
                          note=' (all 43 046 721 matrices: the smallest exhaustive space with 4x4 partial costs)'),
         ]
